@@ -215,6 +215,8 @@ pub use crate::{
 
 #[allow(deprecated)]
 pub use crate::parser::action_generictree;
+#[cfg(grmtools_verif)]
+pub use crate::cpctplus::verif_hooks;
 
 #[allow(deprecated)]
 pub use parser::Node;
